@@ -131,13 +131,18 @@ def leading_zero_cases() -> t.List[str]:
 
 
 def case_near(name: str, s: str):
-    try:
-        sd = _sd(s)
-    except ValueError:
-        return None
-    except Exception as e:  # noqa: BLE001
-        return (f"near.exc.{type(e).__name__}", {"kind": name, "string": s, "exc": repr(e)})
-    return ("near.accepted", {"kind": name, "string": s, "sd": bytes(sd).hex()})
+    """the string is offered three times, through the descriptor API and through sid_to_bytes: a rejection must be repeatable"""
+    from dpapi_ng._security_descriptor import sid_to_bytes
+
+    for attempt, fn in enumerate((_sd, sid_to_bytes, _sd)):
+        try:
+            sd = fn(s)
+        except ValueError:
+            continue
+        except Exception as e:  # noqa: BLE001
+            return (f"near.exc.{type(e).__name__}", {"kind": name, "string": s, "exc": repr(e), "attempt": attempt})
+        return ("near.accepted", {"kind": name, "string": s, "sd": bytes(sd).hex(), "attempt": attempt})
+    return None
 
 
 def run_shard(shard, tier, seed, acc) -> None:
